@@ -28,7 +28,7 @@ theorem ValT_InT {v : Val} (h : ValT v = true) : InT v = true := by
     simp [InT, h.1, h.2]
   | int _ => rfl
   | flt _ => rfl
-  | none => rfl
+  | none => simp [ValT, RegT] at h
   | str _ => simp [ValT, RegT] at h
   | regF n s => simpa [InT, ValT] using h
   | regA n s => simpa [InT, ValT] using h
@@ -118,6 +118,23 @@ theorem buildVal_gateArg_typed {ctx : Ctx} (hc : CtxT ctx) {f : Nat} {a : BSx} (
       · cases ha
 
 /-! ### Typed statements -/
+
+/-- a typed value that `_validate_count` accepts is an int, an integer constant or a parameter -/
+theorem validateCount_cnt {v : Val} {u : Unit} (ht : InT v = true) (h : validateCount v = .ok u) : CntIn v = true := by
+  unfold validateCount at h
+  split at h
+  · rfl
+  · split at h
+    · rename_i hav
+      simp only [Bool.and_eq_true] at hav
+      cases v with
+      | const n x =>
+        cases x <;> simp [InT, RegT] at ht
+        · rfl
+        · simp [isAV, avKind, GateDef.constKind, kindIntOrNone] at hav
+      | param n k => rfl
+      | _ => simp [isAV] at hav
+    · cases h
 
 def MemoTy (m : Memo) : Prop := ∀ k s, (k, s) ∈ m → StmtIn s
 
@@ -215,7 +232,7 @@ theorem mapMSt_typed {fA : BSx → St → M (Obj × St)} : ∀ (l : List BSx) (s
 
 /-- the four block forms: the members are typed statements, so is the block (its count typed) -/
 theorem block_typed {fA : BSx → St → M (Obj × St)} {l : List BSx} {st : St} {par sub : Bool} {it : Val}
-    (hit : InT it = true) (h : ∀ x ∈ l, ∀ s, MemoTy s.memo → TyPost (fA x s)) (hi : MemoTy st.memo) :
+    (hit : CntIn it = true) (h : ∀ x ∈ l, ∀ s, MemoTy s.memo → TyPost (fA x s)) (hi : MemoTy st.memo) :
     TyPost (mapMSt fA l st >>= fun p => do
       let ss ← asStmts p.1
       pure (Obj.stmt (Stmt.block par sub it ss), p.2)) := by
@@ -282,10 +299,10 @@ theorem buildAny_typed (cfg : Config) (mode : KeyMode) : ∀ (f : Nat) (ctx : Ct
             obtain ⟨p, hp, h4⟩ := bind_ok h3
             obtain ⟨o', s2⟩ := p
             obtain ⟨hm, s, rfl, hs⟩ := ih ctx block st hc h.2 hi o' s2 hp
-            obtain ⟨_, _, h5⟩ := bind_ok h4
+            obtain ⟨_, hvc, h5⟩ := bind_ok h4
             simp only [pure, Except.pure, Except.ok.injEq, Prod.mk.injEq] at h5
             obtain ⟨rfl, rfl⟩ := h5
-            exact ⟨hm, _, rfl, buildVal_intOrId_typed hc h.1 hcnt, hs⟩
+            exact ⟨hm, _, rfl, validateCount_cnt (buildVal_intOrId_typed hc h.1 hcnt) hvc, hs⟩
           · cases h
         simp only [h2, if_false] at h
         by_cases h3 : cmd = "sequential_block" ∨ cmd = "parallel_block"
@@ -324,7 +341,7 @@ theorem buildAny_typed (cfg : Config) (mode : KeyMode) : ∀ (f : Nat) (ctx : Ct
               obtain ⟨p, hp, h5⟩ := bind_ok hr
               obtain ⟨os, s2⟩ := p
               obtain ⟨cnt, hcnt, h6⟩ := bind_ok h5
-              obtain ⟨_, _, h7⟩ := bind_ok h6
+              obtain ⟨_, hvc, h7⟩ := bind_ok h6
               obtain ⟨ss, hss, h8⟩ := bind_ok h7
               simp only [pure, Except.pure, Except.ok.injEq, Prod.mk.injEq] at h8
               obtain ⟨rfl, rfl⟩ := h8
@@ -335,7 +352,7 @@ theorem buildAny_typed (cfg : Config) (mode : KeyMode) : ∀ (f : Nat) (ctx : Ct
                 · cases hcnt; rfl
                 · cases hcnt; rfl
                 · exact buildVal_intOrId_typed hc h.1 hcnt
-              exact ⟨hm, _, rfl, hct, asStmts_typed hss hos⟩
+              exact ⟨hm, _, rfl, validateCount_cnt hct hvc, asStmts_typed hss hos⟩
           · cases h
         simp only [h4, if_false] at h
         by_cases h5 : cmd = "branch"
@@ -597,6 +614,7 @@ structure TyInv (acc : Acc) : Prop where
   macros : ∀ m ∈ acc.macros, StmtIn m.body
   regs : ∀ v ∈ acc.registers, InT v = true
   consts : ∀ v ∈ acc.constants, isConst v = true
+  regLike : ∀ v ∈ acc.registers, isRegLike v = true
 
 theorem stepTail_typed {cfg : Config} {mode : KeyMode} {inject : Option (List (String × GateDef))} {acc a1 : Acc}
     {o : Obj} {st : St} (ha : TyInv acc) (ho : ChildTy acc.st o st) (h : stepTail cfg mode inject acc o st = .ok a1) :
@@ -611,7 +629,7 @@ theorem stepTail_typed {cfg : Config} {mode : KeyMode} {inject : Option (List (S
     · rw [hv] at hm; cases hm
   rcases ho with ⟨v, rfl, hvt, hvp, rfl⟩ | ⟨n, rfl, rfl⟩ | ⟨hm, s, rfl, hs⟩ | ⟨hm, m, rfl, hmb⟩
   · -- a value
-    refine ⟨htop, ?_, ?_, ?_, ?_, ?_⟩ <;>
+    refine ⟨htop, ?_, ?_, ?_, ?_, ?_, ?_⟩ <;>
       (cases v <;> simp only [stepTail, throw_eq] at h <;> first
         | cases h
         | (obtain ⟨c, _, h2⟩ := bind_ok h
@@ -622,6 +640,11 @@ theorem stepTail_typed {cfg : Config} {mode : KeyMode} {inject : Option (List (S
              | exact ha.macros
              | exact ha.regs
              | exact ha.consts
+             | exact ha.regLike
+             | (intro x hx
+                rcases List.mem_append.1 hx with hx | hx
+                · exact ha.regLike x hx
+                · simp only [List.mem_singleton] at hx; subst hx; rfl)
              | (intro x hx
                 rcases List.mem_append.1 hx with hx | hx
                 · exact ha.regs x hx
@@ -640,18 +663,18 @@ theorem stepTail_typed {cfg : Config} {mode : KeyMode} {inject : Option (List (S
         · cases h
         · simp only [pure, Except.pure] at h
           cases h
-          refine ⟨htop, ?_, ha.stmts, ha.macros, ha.regs, ha.consts⟩
+          refine ⟨htop, ?_, ha.stmts, ha.macros, ha.regs, ha.consts, ha.regLike⟩
           intro k s hk
           split at hk
           · exact ha.memo k s hk
           · cases hk
     · simp only [hauto, Bool.false_eq_true, if_false, pure, Except.pure] at h
       cases h
-      exact ⟨htop, ha.memo, ha.stmts, ha.macros, ha.regs, ha.consts⟩
+      exact ⟨htop, ha.memo, ha.stmts, ha.macros, ha.regs, ha.consts, ha.regLike⟩
   · -- a statement
     simp only [stepTail, pure, Except.pure] at h
     cases h
-    refine ⟨htop, hm, ?_, ha.macros, ha.regs, ha.consts⟩
+    refine ⟨htop, hm, ?_, ha.macros, ha.regs, ha.consts, ha.regLike⟩
     intro x hx
     rcases List.mem_append.1 hx with hx | hx
     · exact ha.stmts x hx
@@ -664,7 +687,7 @@ theorem stepTail_typed {cfg : Config} {mode : KeyMode} {inject : Option (List (S
     · simp [hl, throw_eq, bind, Except.bind] at h2
     · simp [hl, pure, Except.pure] at h2
       rw [← h2]
-      refine ⟨by rw [← h2] at htop; exact htop, hm, ha.stmts, ?_, ha.regs, ha.consts⟩
+      refine ⟨by rw [← h2] at htop; exact htop, hm, ha.stmts, ?_, ha.regs, ha.consts, ha.regLike⟩
       intro x hx
       rcases List.mem_append.1 hx with hx | hx
       · exact ha.macros x hx
@@ -701,13 +724,13 @@ theorem built_typed (cfg : Config) (e : BSx) (c : Circuit) (hp : ParserSx e) (hb
   have hinv : TyInv acc := by
     refine circuitLoop_typed cs _ acc ?_ ?_ hloop
     · exact ⟨(fun n v h => by simp [Ctx.get] at h), (fun k s hk => by cases hk), (fun s hs => by cases hs),
-        (fun m hm => by cases hm), (fun v hv => by cases hv), (fun v hv => by cases hv)⟩
+        (fun m hm => by cases hm), (fun v hv => by cases hv), (fun v hv => by cases hv), (fun v hv => by cases hv)⟩
     · intro c hc
       refine ⟨hcs c hc, ?_⟩
       simp only [BSx.depth, BSx.depthList]
       have := depth_le_of_mem hc
       omega
-  refine ⟨?_, hinv.macros, hinv.regs, hinv.consts⟩
+  refine ⟨?_, hinv.macros, hinv.regs, hinv.consts, hinv.regLike⟩
   simp only [Acc.toCircuit, StmtIn]
   refine ⟨rfl, ?_⟩
   have : ∀ l : List Stmt, (∀ s ∈ l, StmtIn s) → StmtsIn l := by
@@ -768,7 +791,7 @@ theorem expandSubcircuits_typed {prep meas : Option GateDefChoice} {c c' : Circu
   obtain ⟨stmts, hs, _, _, _, _, rfl⟩ := expand_ok h
   have hp : StmtIn (prepStmt prep c) := by intro a ha; cases ha
   have hm : StmtIn (measStmt meas c) := by intro a ha; cases ha
-  refine ⟨?_, ?_, ht.registers, ht.constants⟩
+  refine ⟨?_, ?_, ht.registers, ht.constants, ht.regLike⟩
   · have hb := spell_typed _ _ hp hm c.body ht.body
     simp only [StmtIn]
     refine ⟨rfl, ?_⟩
